@@ -211,6 +211,50 @@ func suiteBridgeConn(e *vh.Env) {
 		e.Eval(fmt.Sprintf("interleaved-%d", r), true)
 		e.Count("interleaved-connections")
 	}
+	bridgeBigWrites(e, 500000)
+}
+
+// bridgeBigWrites: single Write calls of more than 32 KiB (the hex text message is then larger than 64 KiB) through the
+// real connection.Handler to a TCP echo server and back.
+func bridgeBigWrites(e *vh.Env, base int) {
+	if !e.Want(base) {
+		return
+	}
+	ln, err := net.Listen("tcp", "127.0.0.1:0")
+	if err != nil {
+		return
+	}
+	defer ln.Close()
+	go func() {
+		for {
+			c, err := ln.Accept()
+			if err != nil {
+				return
+			}
+			go func() { io.Copy(c, c); c.Close() }()
+		}
+	}()
+	srv := httptest.NewServer(connection.Handler(ln.Addr().(*net.TCPAddr).Port, http.NotFoundHandler()))
+	defer srv.Close()
+	u, _ := url.Parse("ws" + strings.TrimPrefix(srv.URL, "http") + connection.StreamingPath)
+	for k, size := range []int{1, 4097, 32768, 32769, 100000, 1 << 20} {
+		nc, err := connection.DialWebsocket(context.Background(), u, nil)
+		if err != nil {
+			e.Fail("C15:bridge-connect", err.Error(), base+k, nil, nil, nil)
+			continue
+		}
+		data := e.Rng.Sub(base + k).Bytes(size)
+		go nc.Write(data) // one Write call
+		got := make([]byte, size)
+		nc.SetReadDeadline(time.Now().Add(10 * time.Second))
+		n, rerr := io.ReadFull(nc, got)
+		if n != size || !bytes.Equal(got, data) {
+			e.Fail("C15:stream-mismatch:single-large-write", fmt.Sprintf("%d bytes written with one Write call through the bridge handler to an echo server: %d came back (%v)", size, n, rerr), base+k, nil, n, size)
+		}
+		nc.Close()
+		e.Eval(fmt.Sprintf("big-write-%d", size), size > 32768)
+		e.Count("single-large-write")
+	}
 }
 
 func firstDiffDrv(a, b []byte) int {
